@@ -3,7 +3,7 @@
 (property text only) to /tmp/wt-<ID>/TASK.md"""
 import json, subprocess, sys
 props = {json.loads(l)['id']: json.loads(l) for l in open('/verif/properties.jsonl')}
-T = open('/verif/tools/seedtask.tmpl').read()
+T = open('/verif/tools/' + __import__('os').environ.get('SEED_TMPL', 'seedtask.tmpl')).read()
 for pid in sys.argv[1:]:
     wt = '/tmp/wt-' + pid
     subprocess.run(['git', '-C', '/repo', 'worktree', 'add', '--detach', '-f', wt, 'HEAD'], check=True, stdout=subprocess.DEVNULL, stderr=subprocess.DEVNULL)
